@@ -75,7 +75,7 @@ class B:
                 ctx.check(f"C01 machine==builder position/mode [{tag}]", ghost.agree(M1, o1["_current_axes"], o1["_distance_mode"].idx, self.rel_idx), e, ["C01"], "inv", k)
             # ---- wf: core and state distance modes stay equal; tool flags stay consistent
             ctx.check(f"wf core/state distance mode [{tag}]", o1["_distance_mode"].idx == e.heap[self.sref.oid]["_current_distance_mode"].idx, e, ["C01", "C07", "C05"], "inv")
-            ctx.check(f"wf tool flags consistent [{tag}]", wf_tool(w, e.heap, self.sref), e, ["C07", "C02"], "inv", known.get("wf_tool"))
+            ctx.check(f"wf tool flags consistent [{tag}]", wf_tool(w, e.heap, self.sref), e, ["C07", "C02", "C06"], "inv", known.get("wf_tool"))
             ctx.check(f"wf tracked positions finite [{tag}]", AND(*[OR(c.none, c.inner.finite) for c in list(o1["_current_axes"].items()) + list(e.heap[self.sref.oid]["_current_axes"].items())]), e, ["C01", "C03"], "inv")
             ctx.check(f"wf params shared [{tag}]", z3.BoolVal(e.heap[self.sref.oid]["_current_params"].oid == o1["_current_params"].oid), e, ["C07"], "inv")
             # ---- C02 safety and C03 bounds on every emitted block, in the modal / machine state it is emitted in
@@ -266,8 +266,11 @@ HALT_TEMP = {"WAIT_FOR_BED": "bed-temperature", "WAIT_FOR_HOTEND": "hotend-tempe
 
 def halt_args(ctx, st):
     e, wf = sym_enum("HaltMode", ctx.w, arg=True)
-    kw, wfk, reals = mk_kwargs(st, keys=("S", "R", "P", "K"), comment=False, prefix="hk")
-    return [e], kw, AND(wf, wfk), reals
+    kw, wfk, reals = mk_kwargs(st, keys=("S", "R", "s", "r", "P", "K"), comment=False, prefix="hk")
+    d = st.heap[kw.oid]["$d"]
+    # A-keys: keyword names are distinct after upper-casing (python itself allows both s= and S=; the builder cannot tell which wins)
+    distinct = AND(NOT(AND(d.present["S"], d.present["s"])), NOT(AND(d.present["R"], d.present["r"])))
+    return [e], kw, AND(wf, wfk, distinct), reals
 
 
 @unit("GCodeBuilder.halt", GEN)
@@ -279,7 +282,8 @@ def u_halt_b(ctx):
     bad_arg = OR(off, NOT(valid(ctx, mode, "HaltMode")))
     tool0, cool0 = fld(b.h0, b.sref, "_is_tool_active").t, fld(b.h0, b.sref, "_is_coolant_active").t
     # the temperature the call asks for: S if given, else R (first of the two that is present), when not None
-    pS, vS, pR, vR = kd.present["S"], kd.vals["S"], kd.present["R"], kd.vals["R"]
+    pS, vS = OR(kd.present["S"], kd.present["s"]), merge(simp(kd.present["S"]), kd.vals["S"], kd.vals["s"])
+    pR, vR = OR(kd.present["R"], kd.present["r"]), merge(simp(kd.present["R"]), kd.vals["R"], kd.vals["r"])
     temp = merge(simp(pS), vS, merge(simp(pR), vR, VOpt(T, vS.inner)))
     bad_temp = F
     for name, key in HALT_TEMP.items():
@@ -579,3 +583,83 @@ def u_sleep(ctx):
     b.generic()
     for e in b.exits:
         if e.kind == "return": b.emits_exactly(e, ["G04"], ["C07"])
+
+
+# ---------------------------------------------------------------------------------------------- moves with registered hooks (C03, C20)
+def _hooked(method, bypass):
+    @unit(f"GCodeBuilder.{method}[hooks]", GEN + ["C20"])
+    def u(ctx):
+        nh = fresh("n_hooks", z3.IntSort())
+        ctx.assume(nh >= 1)
+        # build the run by hand: B with a symbolic number of hooks
+        b = B.__new__(B)
+        b.__dict__["_hooks_n"] = nh
+        _init_B_with_hooks(b, ctx, method, bypass, nh)
+    return u
+
+
+def _init_B_with_hooks(b, ctx, method, bypass, nh):
+    holder = {}
+    def mk(ctx_, st):
+        return motion_args(ctx_, st)
+    B.__init__(b, ctx, method, mk, hooks=nh)
+    out_ref = b.x.ghost.get("hook_out")
+    if out_ref is None: raise Unsupported("hook loop contract was not reached")
+    def prepare(real, model):
+        from gscrib.params import ParamsDict
+        k = int(str(model.eval(nh, model_completion=True)))
+        k = max(1, min(k, 3))                       # any number >= 1 of hooks behaves alike: earlier ones pass params through
+        final = harness.conc(ctx.w, model, out_ref, b.h0 if out_ref.oid in b.h0 else b.exits[-1].heap)
+        calls = []
+        def passthrough(origin, target, params, state): calls.append((origin, target)); return params
+        def last(origin, target, params, state):
+            calls.append((origin, target)); p = ParamsDict()
+            for kk, vv in final.items(): dict.__setitem__(p, kk, vv)
+            return p
+        for _ in range(k - 1): real.add_hook(lambda o, t, p, s, f=passthrough: f(o, t, p, s))
+        real.add_hook(last)
+        real._verif_calls = calls
+    ctx.replayer = harness.builder_method_replayer(ctx, ctx.w, method, b.g, b.info, b.h0, b.args, b.kwargs, b.exits, prepare=prepare)
+    od = b.exits[-1].heap[out_ref.oid]["$d"] if out_ref.oid in b.exits[-1].heap else None
+    req = requested_point(b)
+    o0 = b.h0[b.g.oid]; cur = o0["_current_axes"]; rel = o0["_distance_mode"].idx == b.rel_idx
+    tgt = []
+    for c, r in zip(cur.items(), req.items()):
+        c0 = merge(simp(c.none), num(0), c.inner); r0 = merge(simp(r.none), num(0), r.inner)
+        if bypass: tgt.append(VOpt(F, merge(simp(r.none), c0, r.inner)))
+        else: tgt.append(merge(simp(rel), VOpt(F, n_add(c0, r0)), merge(simp(r.none), VOpt(F, c0), VOpt(F, r.inner))))
+    target = VPoint(*tgt)
+    origin = VPoint(*[VOpt(F, merge(simp(c.none), num(0), c.inner)) for c in cur.items()])
+    known = None
+    if bypass:
+        kl = [("KF-C05-absolute-bypass-relative", rel), ("KF-C05-absolute-bypass-FS-then-axes", NOT(rel))]
+        known = {"C05": kl, "C07": lambda e: kl if e.kind == "raise" else None}
+    b.generic(known=known)
+    for e in b.exits:
+        calls = [(g, ev[1]) for g, ev in e.log if ev[0] == "hook"]
+        if e.kind == "return":
+            ctx.check(f"C20 the hook body ran (once per registered hook by the for-statement) @{e.where}", AND(z3.BoolVal(len(calls) == 1), *[g for g, _ in calls]), e, ["C20"], "post")
+        req_finite = AND(*[OR(c.none, c.inner.finite) for c in req.items()])     # a request with NaN/inf coordinates is rejected, it is not a move
+        for i, (g, a) in enumerate(calls):
+            ctx.check(f"C20 hook sees the true absolute origin [{e.kind}@{e.where}]", IMP(g, v_same(a[0], origin)), e, ["C20"], "post")
+            ctx.check(f"C20 hook sees the true absolute target [{e.kind}@{e.where}]", IMP(AND(g, req_finite), v_same(a[1], target)), e, ["C20"], "post")
+            ctx.check(f"C20 hook receives the state object [{e.kind}@{e.where}]", z3.BoolVal(isinstance(a[3], VRef) and a[3].oid == b.sref.oid), e, ["C20"], "post")
+        if e.kind == "return":
+            blocks = emitted(e.log)
+            blk = [s for g, s in blocks if len(s.cmds) == 1 and s.cmds[0].py in ("G1", "G0")]
+            outd = e.heap[out_ref.oid]["$d"]
+            cs = []
+            pd = e.heap[b.pref.oid]["$d"]
+            for k in outd.present:
+                if k in AXES: continue
+                # returned == emitted == remembered, key by key
+                for s in blk:
+                    wp = s.params.present.get(k, F); wv = s.params.vals.get(k)
+                    cs.append(wp == outd.present[k])
+                    if wv is not None: cs.append(IMP(outd.present[k], v_same(as_opt(wv), as_opt(outd.vals[k]))))
+                cs.append(IMP(outd.present[k], AND(pd.present.get(k, F), v_same(as_opt(pd.vals[k]), as_opt(outd.vals[k])))))
+            ctx.check(f"C20 parameters returned by the last hook == emitted == remembered @{e.where}", AND(z3.BoolVal(len(blk) == 1), *cs), e, ["C20"], "post")
+
+
+_hooked("move", False)
+_hooked("move_absolute", True)
